@@ -82,6 +82,40 @@ def confirm(C, ql):
     return True, f'`f: {expr}` compiles; ints and strings accepted canonically'
 
 
+POS_SCHEMA = """schema { query: Query }
+type Query { node: Node }
+interface Node { id: ID! alt: ID }
+type User implements Node { id: ID! alt: ID tags: [ID] }
+type Bot implements Node { id: ID! alt: ID }
+"""
+POS_QUERY = """query Q { node { __typename id ...Alt ... on User { alt tags } } }
+fragment Alt on Node { __typename alt }
+"""
+
+
+def confirm_positions(C):
+    """run-time half, sampled natively: nullable / list IDs in flattened (fragment spread) and variant (inline fragment)
+    positions accept null, strings and integers canonically"""
+    err = C.build(POS_SCHEMA, POS_QUERY, 'Q', 'q')
+    if err:
+        return False, 'flattened / variant ID positions: generated code does not compile: ' + err[-300:].replace('\n', ' | ')
+    cases = [
+        ({'node': {'__typename': 'User', 'id': 7, 'alt': None, 'tags': [1, 'b', None]}}, {'id': '7', 'alt': None, 'tags': ['1', 'b', None]}),
+        ({'node': {'__typename': 'User', 'id': 'x', 'alt': 5, 'tags': None}}, {'id': 'x', 'alt': '5', 'tags': None}),
+        ({'node': {'__typename': 'Bot', 'id': -3, 'alt': 'y'}}, {'id': '-3', 'alt': 'y'}),
+        ({'node': {'__typename': 'Bot', 'id': '0'}}, {'id': '0', 'alt': None}),
+    ]
+    res = C.run('response', [p for p, _ in cases])
+    for (p, want), (st, val) in zip(cases, res):
+        if st != 'ok':
+            return False, f'flattened / variant ID position rejects the conforming payload {json.dumps(p)}: {val}'
+        node = val.get('node') or {}
+        for k, v in want.items():
+            if node.get(k) != v:
+                return False, f'flattened / variant ID position: {json.dumps(p)} deserialized to {json.dumps(val)}, expected {k} = {json.dumps(v)}'
+    return True, 'flattened and variant ID positions ok'
+
+
 def role(c):
     ql = c['model']['qualifiers']
     if c['what'] == 'C16:typechecks':
@@ -116,13 +150,19 @@ def main():
             out.inconc(f'solver counterexample {rl} {ql} did not reproduce natively: {desc}')
     # native confirmation of the runtime half on the type expressions the property lists (sampled, not solver-decided)
     native = []
-    if not by_role or tier == 'thorough':
-        for ql in ([], ['R'], ['R', 'L', 'R'], ['L'], ['L', 'L', 'R']):
+    if not by_role:
+        for ql in (([], ['R'], ['R', 'L', 'R']) if tier == 'quick' else ([], ['R'], ['R', 'L', 'R'], ['L'], ['L', 'L', 'R'])):
             ok, desc = confirm(C, ql)
             replayed += 1
             native.append(dict(type_expression=K.graphql_type_expr(ql, 'ID'), ok=ok, note=desc[:160]))
             if not ok and not by_role:
                 out.violation('native:' + K.graphql_type_expr(ql, 'ID'), desc, dict(kind='native', qualifiers=ql))
+    if not by_role:
+        ok, desc = confirm_positions(C)
+        replayed += 1
+        native.append(dict(positions='fragment spread (flatten) and inline fragment (variant)', ok=ok, note=desc[:200]))
+        if not ok:
+            out.violation('native:flattened-or-variant-id', desc, dict(kind='native', schema=POS_SCHEMA, query=POS_QUERY))
     for w in R.inconclusive:
         out.inconc(w)
     cross = R.cross_check(limit=6 if tier == 'quick' else 30)
